@@ -131,6 +131,8 @@ def check_case(lib, host, part, st, cone, ident, thorough):
             k = extra["force"].tobytes()
             if k not in apex_cache:
                 apex_cache[k] = pgs_apex_stuck(P, extra["force"])
+                if apex_cache[k] is not None:
+                    part.add("pgs_apex_stuck_distinct_results")
             diag = apex_cache[k]
             if diag is not None:
                 ex = dict(extra)
@@ -144,7 +146,7 @@ def check_case(lib, host, part, st, cone, ident, thorough):
                                    what, detail, diag["cone_first_row"], diag["cone_first_row"] + diag["dim"] - 1,
                                    diag["res_normal"], diag["mu_res_tangent_norm"], float(f_ref[diag["cone_first_row"]]),
                                    "+".join(host.atoms), host.eqkind, host.skel, st), rp(ex))
-                part.add("pgs_apex_stuck_runs_flagged")
+                part.add("pgs_apex_stuck_oracle_failures")
                 return
         if extra is not None and "force" in extra:
             extra = dict(extra)
